@@ -323,7 +323,7 @@ func (a *Agent) gatherServerReflexiveCandidates(ctx context.Context, wg *sync.Wa
 //nolint:gocognit,gocyclo,cyclop,maintidx
 func (a *Agent) gatherCandidatesLocal(ctx context.Context, networkTypes []NetworkType) {
 	networks := map[string]struct{}{}
-	for _, networkType := range networkTypes {
+	for _, networkType := range configuredNetworkTypes(networkTypes) {
 		if networkType.IsTCP() {
 			networks[tcp] = struct{}{}
 		} else {
@@ -625,7 +625,7 @@ func (a *Agent) gatherCandidatesSrflxMapped(ctx context.Context, networkTypes []
 
 	_, ifaces, _ := localInterfaces(a.net, a.interfaceFilter, a.ipFilter, networkTypes, a.includeLoopback)
 
-	for _, networkType := range networkTypes {
+	for _, networkType := range configuredNetworkTypes(networkTypes) {
 		if networkType.IsTCP() {
 			continue
 		}
@@ -739,7 +739,7 @@ func (a *Agent) gatherCandidatesSrflxUDPMux(ctx context.Context, urls []*stun.UR
 	var wg sync.WaitGroup
 	defer wg.Wait()
 
-	for _, networkType := range networkTypes {
+	for _, networkType := range configuredNetworkTypes(networkTypes) {
 		if networkType.IsTCP() {
 			continue
 		}
@@ -938,7 +938,7 @@ func (a *Agent) gatherCandidatesSrflx(ctx context.Context, urls []*stun.URI, net
 		}
 	}
 
-	for _, networkType := range networkTypes {
+	for _, networkType := range configuredNetworkTypes(networkTypes) {
 		if networkType.IsTCP() {
 			continue
 		}
